@@ -70,6 +70,20 @@ def families(tier):
             hs = [dict(bus='A', pat='P', name='hp', prog=[('disp', 'A', 'C', 'await'), ('pause',)]), dict(bus='A', pat='C', name='hc', prog=hc),
                   dict(bus=gbus, pat='G', name='hg', prog=[('pause',)]), dict(bus='A', pat='X', name='hx', prog=[('ret', 0)])]
             add('c13.nested', f'k{k}-g{gbus}', N, hs, [('disp', 'A', 'P', 'await'), ('disp', 'A', 'X', 'await')], names=names, shape='nested')
+    # chains of 3-4 nested fire-and-forget dispatches (root -> mid -> leaf ...), with N filler siblings per level so that every ancestor can be evicted while in flight
+    for N in Ns:
+        for depth, fill, lshape in itertools.product((3, 4), (0, 1), ('ret', 'pause')):
+            if N > 3 and depth == 4:
+                continue
+            chain = ['P', 'C', 'G', 'Q'][:depth]
+            hs = []
+            for i, t in enumerate(chain):
+                prog = []
+                if i + 1 < depth:
+                    prog += [('disp', 'A', chain[i + 1], 'ff')] + [('disp', 'A', f'Z{i}{j}', 'ff') for j in range(N * fill)]
+                prog += [('pause',)] if (lshape == 'pause' or i + 1 < depth) else [('ret', 1)]
+                hs.append(dict(bus='A', pat=t, name='h' + t, prog=prog))
+            add('c13.chain', f'd{depth}-f{fill}-{lshape}', N, hs, [('disp', 'A', 'P', 'await'), ('disp', 'A', 'X', 'await')], shape='chain')
     return out
 
 
